@@ -114,7 +114,12 @@ class H(semh.Base):
             s2, d2, self.W2 = self.tyspec(ex, t2, w2, "w2"); sub.update(d2)
             init1 = {"int": "1", "uint": "1", "float": "1.0", "bool": "true"}.get(t1)
             pre = f"const {s1} v = {init1} ;" if c1 else f"{s1} v ;"
-            value = {"var": "v", "arith_vv": "v + v", "arith_vl": "v + 1", "mul_vv": "v * v", "neg": "- v", "cast": f"{s2} ( v )", "paren": "( v )"}[vform]
+            if vform.startswith("arith_vw:"):
+                t3 = vform.split(":")[1]
+                pre += f" {t3} w ;"
+                value = "v + w" if not vform.endswith(":r") else "w + v"
+            else:
+                value = {"var": "v", "arith_vv": "v + v", "arith_vl": "v + 1", "mul_vv": "v * v", "neg": "- v", "cast": f"{s2} ( v )", "paren": "( v )"}[vform]
             if form == "decl":
                 body = f"{'const ' if c2 else ''}{s2} x = {value} ;"
             else:
@@ -212,6 +217,13 @@ class H(semh.Base):
             P(type_eq(vt, tx), f"no diagnostic, but the stored value has type {vt!r} and the target {tx!r} (no explicit cast to the target type)")
         if form in ("decl", "assign"):
             _, (t1, w1, c1), (t2, w2, c2), vform = self.task
+            if vform.startswith("arith_vw:"):
+                # arithmetic on operands of different kinds: no diagnostic means a common type exists and both operands were
+                # brought to it (check_typing above); kinds with no common type (anything with bit, bool, duration, stretch, angle
+                # of another kind) must be diagnosed
+                t3 = vform.split(":")[1]
+                if t3 != t1 and (t1 in SPECIAL or t3 in SPECIAL) and not typediag:
+                    raise Violation(f"`{self.label()}`: arithmetic on {t1} and {t3} operands (no common type) is accepted without diagnostic (expression typed {vt!r})")
             if vform in ("var", "arith_vv", "mul_vv", "neg", "paren"):
                 if downward(t1, t2) and not typediag:
                     raise Violation(f"`{self.label()}`: a {t1} value is converted down to {t2} without diagnostic (value typed {vt!r}, target {tx!r})")
@@ -243,8 +255,10 @@ def build_tasks(quick):
                     for t2 in types:
                         for w2 in wopts(t2):
                             for c2 in ((False,) if form == "assign" or quick else (False, True)):
-                                for vf in vforms:
+                                for vf in list(vforms) + ([f"arith_vw:{t3}{sfx}" for t3 in ("int", "uint", "float", "bool", "angle", "complex") for sfx in ("", ":r")] if (form == "decl" and not w1 and not w2 and not c1 and not c2) else []):
                                     if vf in ("arith_vv", "arith_vl", "mul_vv", "neg") and t1 in ("bit", "bool", "duration", "stretch"):
+                                        continue
+                                    if vf.startswith("arith_vw:") and t1 in ("bit", "duration", "stretch"):
                                         continue
                                     if quick and vf != "var" and (w1 != w2):
                                         continue
